@@ -179,13 +179,14 @@ theorem prattParse_no_panic {items : List Item} (h : Shaped 0 items) : prattPars
 /-! ### the pairs of an `exp` are shaped -/
 
 theorem optUnary_shape (toks : List Tok) (x : PExp) : run 0 ((optUnary toks).1 ++ [.leaf x]) = some 2 := by
-  cases toks with
-  | nil => simp [optUnary, run]
-  | cons t r =>
-    simp only [optUnary]
+  unfold optUnary
+  split
+  · simp [run]
+  · rename_i t r _
     cases h : unRule t with
     | none => simp [run]
     | some rule => simp [run, unRule_prefix h]
+  · simp [run]
 
 theorem collectLoop_shaped : ∀ (f : Nat) (toks : List Tok) (acc items : List Item) (rest : List Tok),
     run 0 acc = some 2 → collectLoop f toks acc = .ok (items, rest) → Shaped 0 items := by
@@ -198,18 +199,17 @@ theorem collectLoop_shaped : ∀ (f : Nat) (toks : List Tok) (acc items : List I
     | nil => simp [collectLoop] at h; rw [← h.1]; exact hacc
     | cons t r =>
       simp only [collectLoop] at h
-      cases hb : binRule t with
-      | none => simp [hb] at h; rw [← h.1]; exact hacc
-      | some rule =>
-        simp only [hb] at h
-        cases hl : leaf f (optUnary r).2 with
-        | error e =>
-          rw [hl] at h
-          cases e <;> simp at h
-          rw [← h.1]; exact hacc
-        | ok p =>
-          obtain ⟨x, rest'⟩ := p
-          rw [hl] at h
+      split at h
+      · injection h with h; injection h with h1 _; rw [← h1]; exact hacc
+      · rename_i rule hrule
+        have hb : binRule t = some rule := by
+          split at hrule
+          · cases hrule
+          · exact hrule
+        split at h
+        · injection h with h; injection h with h1 _; rw [← h1]; exact hacc
+        · cases h
+        · rename_i x rest' hl
           refine ih rest' _ items rest ?_ h
           have : acc ++ .op rule :: (optUnary r).1 ++ [.leaf x] = acc ++ (.op rule :: ((optUnary r).1 ++ [.leaf x])) := by simp
           rw [this, run_append, hacc]
@@ -233,134 +233,204 @@ theorem collect_shaped (f : Nat) (toks : List Tok) (items : List Item) (rest : L
 theorem err_ne {α : Type} {x : PRes α} {e : PErr} (h : x = .error e) (hx : x ≠ .error .panic) : e ≠ .panic := by
   intro he; subst he; exact hx h
 
-theorem no_panic : ∀ f : Nat,
+theorem wordLeaf_no_panic (w : String) (r : List Tok) : wordLeaf w r ≠ .error .panic := by
+  simp only [wordLeaf]
+  repeat' split
+  all_goals simp
+
+theorem arrayLeaf_no_panic (r : List Tok) : arrayLeaf r ≠ .error .panic := by
+  simp only [arrayLeaf]
+  repeat' split
+  all_goals simp
+
+/-- no function of the model returns `panic` at fuel `f` -/
+def NoPanicAt (f : Nat) : Prop :=
     (∀ toks, parseExp f toks ≠ .error .panic)
     ∧ (∀ toks, collect f toks ≠ .error .panic)
     ∧ (∀ toks acc, collectLoop f toks acc ≠ .error .panic)
     ∧ (∀ toks, leaf f toks ≠ .error .panic)
+    ∧ (∀ w toks, wordRest f w toks ≠ .error .panic)
+    ∧ (∀ n toks, scopedFn f n toks ≠ .error .panic)
+    ∧ (∀ toks vs its, iterList f toks vs its ≠ .error .panic)
+    ∧ (∀ toks, iterDecl f toks ≠ .error .panic)
+    ∧ (∀ toks, iterator f toks ≠ .error .panic)
+    ∧ (∀ toks acc, expList f toks acc ≠ .error .panic)
+    ∧ (∀ toks acc, accessLoop f toks acc ≠ .error .panic)
+    ∧ (∀ toks acc, indexLoop f toks acc ≠ .error .panic)
     ∧ (∀ toks, args f toks ≠ .error .panic)
     ∧ (∀ toks acc, argsTail f toks acc ≠ .error .panic)
     ∧ (∀ toks acc, atoms f toks acc ≠ .error .panic)
-    ∧ (∀ toks, imulOrSingle f toks ≠ .error .panic) := by
+    ∧ (∀ toks, optVariable f toks ≠ .error .panic)
+    ∧ (∀ toks, imulOrSingle f toks ≠ .error .panic)
+
+theorem np_parseExp (f : Nat) (ih : NoPanicAt f) : ∀ toks, parseExp (f+1) toks ≠ .error .panic := by
+  obtain ⟨hPE, hC, hCL, hL, hWR, hS, hIL, hID, hIt, hEL, hAL, hIx, hA, hAT, hAt, hOV, hI⟩ := ih
+  intro toks
+  simp only [parseExp]
+  cases hc : collect f toks with
+  | error e => simp only; intro h; injection h with h; exact err_ne hc (hC toks) h
+  | ok p =>
+    obtain ⟨items, rest⟩ := p
+    simp only
+    have hp := prattParse_no_panic (collect_shaped f toks items rest hc)
+    cases hpp : prattParse items with
+    | error e => simp only; intro h; injection h with h; subst h; exact hp hpp
+    | ok t => simp
+theorem np_collect (f : Nat) (ih : NoPanicAt f) : ∀ toks, collect (f+1) toks ≠ .error .panic := by
+  obtain ⟨hPE, hC, hCL, hL, hWR, hS, hIL, hID, hIt, hEL, hAL, hIx, hA, hAT, hAt, hOV, hI⟩ := ih
+  have hWL := wordLeaf_no_panic
+  have hAr := arrayLeaf_no_panic
+  intro toks
+  simp only [collect]
+  repeat' split
+  all_goals first | (simp_all; done) | (intro hh; injection hh with hh; subst hh; simp_all)
+theorem np_collectLoop (f : Nat) (ih : NoPanicAt f) : ∀ toks acc, collectLoop (f+1) toks acc ≠ .error .panic := by
+  obtain ⟨hPE, hC, hCL, hL, hWR, hS, hIL, hID, hIt, hEL, hAL, hIx, hA, hAT, hAt, hOV, hI⟩ := ih
+  have hWL := wordLeaf_no_panic
+  have hAr := arrayLeaf_no_panic
+  intro toks acc
+  simp only [collectLoop]
+  repeat' split
+  all_goals first | (simp_all; done) | (intro hh; injection hh with hh; subst hh; simp_all)
+theorem np_leaf (f : Nat) (ih : NoPanicAt f) : ∀ toks, leaf (f+1) toks ≠ .error .panic := by
+  obtain ⟨hPE, hC, hCL, hL, hWR, hS, hIL, hID, hIt, hEL, hAL, hIx, hA, hAT, hAt, hOV, hI⟩ := ih
+  have hWL := wordLeaf_no_panic
+  have hAr := arrayLeaf_no_panic
+  intro toks
+  simp only [leaf]
+  repeat' split
+  all_goals first | (simp_all; done) | (intro hh; injection hh with hh; subst hh; simp_all)
+theorem np_wordRest (f : Nat) (ih : NoPanicAt f) : ∀ w toks, wordRest (f+1) w toks ≠ .error .panic := by
+  obtain ⟨hPE, hC, hCL, hL, hWR, hS, hIL, hID, hIt, hEL, hAL, hIx, hA, hAT, hAt, hOV, hI⟩ := ih
+  have hWL := wordLeaf_no_panic
+  have hAr := arrayLeaf_no_panic
+  intro w toks
+  simp only [wordRest]
+  repeat' split
+  all_goals first | (simp_all; done) | (intro hh; injection hh with hh; subst hh; simp_all)
+theorem np_scopedFn (f : Nat) (ih : NoPanicAt f) : ∀ n toks, scopedFn (f+1) n toks ≠ .error .panic := by
+  obtain ⟨hPE, hC, hCL, hL, hWR, hS, hIL, hID, hIt, hEL, hAL, hIx, hA, hAT, hAt, hOV, hI⟩ := ih
+  have hWL := wordLeaf_no_panic
+  have hAr := arrayLeaf_no_panic
+  intro n toks
+  simp only [scopedFn]
+  repeat' split
+  all_goals first | (simp_all; done) | (intro hh; injection hh with hh; subst hh; simp_all)
+theorem np_iterList (f : Nat) (ih : NoPanicAt f) : ∀ toks vs its, iterList (f+1) toks vs its ≠ .error .panic := by
+  obtain ⟨hPE, hC, hCL, hL, hWR, hS, hIL, hID, hIt, hEL, hAL, hIx, hA, hAT, hAt, hOV, hI⟩ := ih
+  have hWL := wordLeaf_no_panic
+  have hAr := arrayLeaf_no_panic
+  intro toks vs its
+  simp only [iterList]
+  repeat' split
+  all_goals first | (simp_all; done) | (intro hh; injection hh with hh; subst hh; simp_all)
+theorem np_iterDecl (f : Nat) (ih : NoPanicAt f) : ∀ toks, iterDecl (f+1) toks ≠ .error .panic := by
+  obtain ⟨hPE, hC, hCL, hL, hWR, hS, hIL, hID, hIt, hEL, hAL, hIx, hA, hAT, hAt, hOV, hI⟩ := ih
+  have hWL := wordLeaf_no_panic
+  have hAr := arrayLeaf_no_panic
+  intro toks
+  simp only [iterDecl]
+  repeat' split
+  all_goals first | (simp_all; done) | (intro hh; injection hh with hh; subst hh; simp_all)
+theorem np_iterator (f : Nat) (ih : NoPanicAt f) : ∀ toks, iterator (f+1) toks ≠ .error .panic := by
+  obtain ⟨hPE, hC, hCL, hL, hWR, hS, hIL, hID, hIt, hEL, hAL, hIx, hA, hAT, hAt, hOV, hI⟩ := ih
+  have hWL := wordLeaf_no_panic
+  have hAr := arrayLeaf_no_panic
+  intro toks
+  simp only [iterator]
+  repeat' split
+  all_goals first | (simp_all; done) | (intro hh; injection hh with hh; subst hh; simp_all)
+theorem np_expList (f : Nat) (ih : NoPanicAt f) : ∀ toks acc, expList (f+1) toks acc ≠ .error .panic := by
+  obtain ⟨hPE, hC, hCL, hL, hWR, hS, hIL, hID, hIt, hEL, hAL, hIx, hA, hAT, hAt, hOV, hI⟩ := ih
+  have hWL := wordLeaf_no_panic
+  have hAr := arrayLeaf_no_panic
+  intro toks acc
+  simp only [expList]
+  repeat' split
+  all_goals first | (simp_all; done) | (intro hh; injection hh with hh; subst hh; simp_all)
+theorem np_accessLoop (f : Nat) (ih : NoPanicAt f) : ∀ toks acc, accessLoop (f+1) toks acc ≠ .error .panic := by
+  obtain ⟨hPE, hC, hCL, hL, hWR, hS, hIL, hID, hIt, hEL, hAL, hIx, hA, hAT, hAt, hOV, hI⟩ := ih
+  have hWL := wordLeaf_no_panic
+  have hAr := arrayLeaf_no_panic
+  intro toks acc
+  simp only [accessLoop]
+  repeat' split
+  all_goals first | (simp_all; done) | (intro hh; injection hh with hh; subst hh; simp_all)
+theorem np_indexLoop (f : Nat) (ih : NoPanicAt f) : ∀ toks acc, indexLoop (f+1) toks acc ≠ .error .panic := by
+  obtain ⟨hPE, hC, hCL, hL, hWR, hS, hIL, hID, hIt, hEL, hAL, hIx, hA, hAT, hAt, hOV, hI⟩ := ih
+  have hWL := wordLeaf_no_panic
+  have hAr := arrayLeaf_no_panic
+  intro toks acc
+  simp only [indexLoop]
+  repeat' split
+  all_goals first | (simp_all; done) | (intro hh; injection hh with hh; subst hh; simp_all)
+theorem np_args (f : Nat) (ih : NoPanicAt f) : ∀ toks, args (f+1) toks ≠ .error .panic := by
+  obtain ⟨hPE, hC, hCL, hL, hWR, hS, hIL, hID, hIt, hEL, hAL, hIx, hA, hAT, hAt, hOV, hI⟩ := ih
+  have hWL := wordLeaf_no_panic
+  have hAr := arrayLeaf_no_panic
+  intro toks
+  simp only [args]
+  repeat' split
+  all_goals first | (simp_all; done) | (intro hh; injection hh with hh; subst hh; simp_all)
+theorem np_argsTail (f : Nat) (ih : NoPanicAt f) : ∀ toks acc, argsTail (f+1) toks acc ≠ .error .panic := by
+  obtain ⟨hPE, hC, hCL, hL, hWR, hS, hIL, hID, hIt, hEL, hAL, hIx, hA, hAT, hAt, hOV, hI⟩ := ih
+  have hWL := wordLeaf_no_panic
+  have hAr := arrayLeaf_no_panic
+  intro toks acc
+  simp only [argsTail]
+  repeat' split
+  all_goals first | (simp_all; done) | (intro hh; injection hh with hh; subst hh; simp_all)
+theorem np_atoms (f : Nat) (ih : NoPanicAt f) : ∀ toks acc, atoms (f+1) toks acc ≠ .error .panic := by
+  obtain ⟨hPE, hC, hCL, hL, hWR, hS, hIL, hID, hIt, hEL, hAL, hIx, hA, hAT, hAt, hOV, hI⟩ := ih
+  have hWL := wordLeaf_no_panic
+  have hAr := arrayLeaf_no_panic
+  intro toks acc
+  simp only [atoms]
+  repeat' split
+  all_goals first | (simp_all; done) | (intro hh; injection hh with hh; subst hh; simp_all)
+theorem np_optVariable (f : Nat) (ih : NoPanicAt f) : ∀ toks, optVariable (f+1) toks ≠ .error .panic := by
+  obtain ⟨hPE, hC, hCL, hL, hWR, hS, hIL, hID, hIt, hEL, hAL, hIx, hA, hAT, hAt, hOV, hI⟩ := ih
+  have hWL := wordLeaf_no_panic
+  have hAr := arrayLeaf_no_panic
+  intro toks
+  simp only [optVariable]
+  repeat' split
+  all_goals first | (simp_all; done) | (intro hh; injection hh with hh; subst hh; simp_all)
+theorem np_imulOrSingle (f : Nat) (ih : NoPanicAt f) : ∀ toks, imulOrSingle (f+1) toks ≠ .error .panic := by
+  obtain ⟨hPE, hC, hCL, hL, hWR, hS, hIL, hID, hIt, hEL, hAL, hIx, hA, hAT, hAt, hOV, hI⟩ := ih
+  have hWL := wordLeaf_no_panic
+  have hAr := arrayLeaf_no_panic
+  intro toks
+  simp only [imulOrSingle]
+  repeat' split
+  all_goals first | (simp_all; done) | (intro hh; injection hh with hh; subst hh; simp_all)
+
+theorem no_panic : ∀ f : Nat, NoPanicAt f := by
   intro f
   induction f with
   | zero =>
-    refine ⟨?_, ?_, ?_, ?_, ?_, ?_, ?_, ?_⟩ <;> intros <;>
-      simp [parseExp, collect, collectLoop, leaf, args, argsTail, atoms, imulOrSingle]
+    refine ⟨?_, ?_, ?_, ?_, ?_, ?_, ?_, ?_, ?_, ?_, ?_, ?_, ?_, ?_, ?_, ?_, ?_⟩ <;> intros <;>
+      simp [parseExp, collect, collectLoop, leaf, wordRest, scopedFn, iterList, iterDecl, iterator, expList, accessLoop,
+        indexLoop, args, argsTail, atoms, optVariable, imulOrSingle]
   | succ f ih =>
-    obtain ⟨hPE, hC, hCL, hL, hA, hAT, hAt, hI⟩ := ih
-    refine ⟨?_, ?_, ?_, ?_, ?_, ?_, ?_, ?_⟩
-    · intro toks
-      simp only [parseExp]
-      cases hc : collect f toks with
-      | error e => simp only; intro h; injection h with h; exact err_ne hc (hC toks) h
-      | ok p =>
-        obtain ⟨items, rest⟩ := p
-        simp only
-        have hp := prattParse_no_panic (collect_shaped f toks items rest hc)
-        cases hpp : prattParse items with
-        | error e => simp only; intro h; injection h with h; subst h; exact hp hpp
-        | ok t => simp
-    · intro toks
-      simp only [collect]
-      cases hl : leaf f (optUnary toks).2 with
-      | error e => simp only; intro h; injection h with h; exact err_ne hl (hL _) h
-      | ok p => obtain ⟨t, rest⟩ := p; exact hCL _ _
-    · intro toks acc
-      cases toks with
-      | nil => simp [collectLoop]
-      | cons t r =>
-        simp only [collectLoop]
-        cases hb : binRule t with
-        | none => simp
-        | some rule =>
-          simp only
-          cases hl : leaf f (optUnary r).2 with
-          | error e =>
-            cases e with
-            | reject => simp
-            | panic => exact absurd hl (hL _)
-            | fuel => simp
-          | ok p => obtain ⟨x, rest⟩ := p; exact hCL _ _
-    · intro toks
-      simp only [leaf]
-      split
-      · rename_i w r
-        split
-        · cases ha : args f r with
-          | ok p => obtain ⟨as, rest⟩ := p; simp
-          | error e =>
-            cases e with
-            | reject =>
-              simp only [wordLeaf]
-              repeat' split
-              all_goals simp
-            | panic => exact absurd ha (hA _)
-            | fuel => simp
-        · simp only [wordLeaf]
-          repeat' split
-          all_goals simp
-      · simp only [wordLeaf]
-        repeat' split
-        all_goals simp
-      · exact hI _
-      · exact hI _
-      · exact hI _
-      · simp
-    · intro toks
-      simp only [args]
-      cases hp : parseExp f toks with
-      | ok p => obtain ⟨a, r⟩ := p; exact hAT _ _
-      | error e =>
-        cases e with
-        | reject => simp only; split <;> simp
-        | panic => exact absurd hp (hPE _)
-        | fuel => simp
-    · intro toks acc
-      simp only [argsTail]
-      split
-      · simp
-      · rename_i r
-        cases hp : parseExp f r with
-        | ok p => obtain ⟨a, r'⟩ := p; exact hAT _ _
-        | error e => simp only; intro h; injection h with h; exact err_ne hp (hPE _) h
-      · simp
-    · intro toks acc
-      simp only [atoms]
-      split
-      · rename_i s r
-        cases intLeaf s with
-        | none => simp
-        | some t => exact hAt _ _
-      · exact hAt _ _
-      · rename_i r
-        cases hp : parseExp f r with
-        | error e => simp only; intro h; injection h with h; exact err_ne hp (hPE _) h
-        | ok p =>
-          obtain ⟨t, r'⟩ := p
-          split
-          · exact hAt _ _
-          · simp
-          · rename_i heq; cases heq
-      · simp
-    · intro toks
-      simp only [imulOrSingle]
-      cases ha : atoms f toks [] with
-      | error e => simp only; intro h; injection h with h; exact err_ne ha (hAt _ _) h
-      | ok p =>
-        obtain ⟨as, rest⟩ := p
-        repeat' split
-        all_goals first | (rename_i heq; cases heq; done) | simp
+    exact ⟨np_parseExp f ih, np_collect f ih, np_collectLoop f ih, np_leaf f ih, np_wordRest f ih, np_scopedFn f ih, np_iterList f ih, np_iterDecl f ih, np_iterator f ih, np_expList f ih, np_accessLoop f ih, np_indexLoop f ih, np_args f ih, np_argsTail f ih, np_atoms f ih, np_optVariable f ih, np_imulOrSingle f ih⟩
 
 /-- **The parser model never panics**: on no token sequence does the Pratt driver reach one of its
 `panic!` / `expect` sites. -/
-theorem parseToks_no_panic (toks : List Tok) : parseToks toks ≠ .error .panic := by
-  unfold parseToks
+theorem parseToksRaw_no_panic (toks : List Tok) : parseToksRaw toks ≠ .error .panic := by
+  unfold parseToksRaw
   have := (no_panic (parseFuel toks)).1 toks
   cases hp : parseExp (parseFuel toks) toks with
   | error e => simp only; intro h; injection h with h; exact err_ne hp this h
   | ok p =>
     obtain ⟨t, rest⟩ := p
     cases rest <;> simp
+
+theorem parseToks_no_panic (toks : List Tok) : parseToks toks ≠ .error .panic := by
+  unfold parseToks
+  have := parseToksRaw_no_panic toks
+  cases hp : parseToksRaw toks with
+  | error e => simp only; intro h; injection h with h; exact this (by rw [hp, h])
+  | ok t => simp only; split <;> simp
 
 end Rooc.Syntax.Proofs
